@@ -6,7 +6,7 @@
    flanks, continuity for non-zero widths) and emits each case for the real code. *)
 EXTENDS Fuzzy, TLC, Json
 XNumQ == {-2, -1, 0, 1, 2, 3, 4, 5, 6, 7, 8, 9, 12, 15, 16, 17}
-XNumT == -3..18
+XNumT == -3..26
 CONSTANTS Grid, XNum      \* parameters from Grid (integers), x = i/4 for i in XNum
 Kinds == {"tri", "trap", "lins", "linz", "s", "z", "pi"}
 Arity(k) == CASE k \in {"lins", "linz", "s", "z"} -> 2 [] k = "tri" -> 3 [] OTHER -> 4
